@@ -8,7 +8,8 @@
 // block, wrong bytes) are verdicts at once. The two timing-dependent clauses (a delivery that
 // does not arrive, a want that lingers) are only *suspicions* after the first allowance: the
 // case is then run again on its own with a long allowance and reported only if the suspicion
-// is confirmed there; otherwise the case counts as inconclusive, never as a violation.
+// is confirmed there (a case with rounds gets up to three such confirmation runs, because the
+// interleaving has to be met again); otherwise the case counts as inconclusive, never as a violation.
 //
 // A case may have a second phase: requests that start only after every earlier request ended
 // and the want-list was seen clean, mostly for CIDs the same node asked for before (requesters
@@ -25,6 +26,28 @@
 // want-list was first seen clean for more than two timer periods and the list is polled again:
 // a cancelled or completed CID that a session timer puts back on the want-list for good is a
 // lingering want like any other (suspicion, then confirmation run).
+//
+// Cancellation shapes. Besides per-request cancel points (after k received blocks, or after a
+// delay) requests can share a parent context (cancel group) that the harness cancels after a
+// generated delay, which ends all of them together, as a caller does that issues several
+// requests under one request context. Generated cases use cancel groups in bursts only, where
+// the requests have disjoint key sets (with overlapping key sets on several sessions a shared
+// cancellation that meets arriving blocks leaves wants behind on the unchanged tree, see the
+// report of 2026-09-22; not yet classified). A quarter of the cases are "bursts": 2-8 requests for
+// disjoint key sets on one long-lived session under one shared context, cancelled together while
+// wants are outstanding, repeated for up to 12 rounds. A sixth of the remaining cases are
+// "sweeps": a request for blocks > 1 KiB that most nodes hold is cancelled about one network
+// round trip (latency 1-3 ms) after it started and issued again 16-32 times, cancelled a little
+// later (50-150 us) each time, so that cancellations fall before, into and after the arrival of
+// the peers' HAVEs. Rounds reuse the phase machinery: a round starts only when the want-list was
+// seen clean after the round before.
+//
+// A lingering want that could be the open finding cancelled-want-rebroadcast is probed: the
+// harness asks for the CIDs once more through a throw-away request and cancels it (the exchange
+// then retracts what no session is interested in any more), and lets the session timers fire
+// again. Only an entry that this clears for good is a one-off stale entry and matches the
+// finding; a CID that stays (a session that lost the cancel is still interested) or comes back
+// (a session keeps re-broadcasting it) does not (see rebroadcastSignature).
 //
 // Not in the domain: connecting / disconnecting nodes while requests run. The property
 // quantifies over request sets, placement, duplicates, overlapping requests and sessions,
@@ -106,6 +129,14 @@ type Case struct {
 	// GroupMs[g-1]: when the shared parent context of cancel group g is cancelled (ms after the
 	// start of the phase)
 	GroupMs []int `json:"group_ms,omitempty"`
+	// Rounds > 1: the caller does it all again: the phases are run Rounds times in a row (a round
+	// starts when the last phase of the round before has ended and the want-list was seen clean;
+	// late blocks are stored once, sessions live on, HoldMs applies to the last round). SweepUs:
+	// in round r every timed cancellation (CancelMs+CancelUs of a request with Cancel == 0, GroupMs)
+	// happens r*SweepUs microseconds later than stated: a sweep of the cancellation point over the
+	// time at which the answers of the peers arrive.
+	Rounds  int `json:"rounds,omitempty"`
+	SweepUs int `json:"sweep_us,omitempty"`
 }
 
 func blockOf(i, size int) blocks.Block {
@@ -127,9 +158,14 @@ func gen(t *rapid.T) Case {
 	// shape "burst" (a quarter of the cases): one caller issues 2-8 (thorough: 2-12) requests for
 	// disjoint key sets on one long-lived session under one shared cancellable context and
 	// cancels them together while most wants are still outstanding (blocks held by nobody or
-	// stored late), and does so again in up to 5 further rounds (phases); see genBurst
+	// stored late), and does so again in up to 11 further rounds; see genBurst
 	burst := rapid.IntRange(0, 3).Draw(t, "burst") == 0
-	nextPhase := 1
+	// shape "sweep" (a sixth of the remaining cases): see genSweep
+	if !burst && rapid.IntRange(0, 5).Draw(t, "sweep") == 0 {
+		genSweep(t, &c)
+		genTimers(t, &c)
+		return c
+	}
 	nb := rapid.IntRange(1, kit.Scale(10, 16)).Draw(t, "nblocks")
 	nreq := rapid.SampledFrom([]int{1, 2, 2, 3, 3}).Draw(t, "nreq")
 	if burst {
@@ -177,7 +213,7 @@ func gen(t *rapid.T) Case {
 		c.LateMs = append(c.LateMs, late)
 	}
 	if burst {
-		nextPhase = genBurst(t, &c, reqNodes[0], nb, nreq)
+		genBurst(t, &c, reqNodes[0], nb, nreq)
 		nreq = 0
 	}
 	for r := 0; r < nreq; r++ {
@@ -201,16 +237,6 @@ func gen(t *rapid.T) Case {
 		}
 		c.Reqs = append(c.Reqs, q)
 	}
-	// a quarter of the other cases: the requests (each with probability 3/4) share one parent
-	// context that is cancelled after a generated delay, whatever their kind, node and session
-	if !burst && rapid.IntRange(0, 3).Draw(t, "shared") == 0 {
-		c.GroupMs = []int{rapid.SampledFrom(groupMsPool).Draw(t, "groupms")}
-		for i := range c.Reqs {
-			if rapid.IntRange(0, 3).Draw(t, "ingroup") != 0 {
-				c.Reqs[i].Group = 1
-			}
-		}
-	}
 	// second phase (half of the cases): one or two requests that start after all of the above
 	// ended, on a node that already requested something, mostly for keys that node asked for
 	// before (it never keeps a block, so the exchange has to fetch it again)
@@ -218,7 +244,7 @@ func gen(t *rapid.T) Case {
 		first := len(c.Reqs)
 		n2 := rapid.SampledFrom([]int{1, 1, 2}).Draw(t, "nreq2")
 		for r := 0; r < n2; r++ {
-			q := Req{Phase: nextPhase, Node: c.Reqs[rapid.IntRange(0, first-1).Draw(t, "rnode2")].Node}
+			q := Req{Phase: 1, Node: c.Reqs[rapid.IntRange(0, first-1).Draw(t, "rnode2")].Node}
 			var before []int
 			for _, p := range c.Reqs[:first] {
 				if p.Node == q.Node {
@@ -252,6 +278,11 @@ func gen(t *rapid.T) Case {
 	// configuration: in half of the cases short session timers, so that idle ticks and periodic
 	// searches happen while requests run; if the case has a long-lived session (NewSession) the
 	// sessions are then held open across at least two periods after every phase
+	genTimers(t, &c)
+	return c
+}
+
+func genTimers(t *rapid.T, c *Case) {
 	if rapid.IntRange(0, 1).Draw(t, "timers") == 0 {
 		c.SearchMs = rapid.SampledFrom([]int{5, 10, 20, 30}).Draw(t, "searchms")
 		c.RebroadcastMs = rapid.SampledFrom([]int{10, 15, 25}).Draw(t, "rebroadcastms")
@@ -261,7 +292,6 @@ func gen(t *rapid.T) Case {
 			}
 		}
 	}
-	return c
 }
 
 var groupMsPool = []int{0, 1, 2, 3, 5, 10, 20, 40}
@@ -270,11 +300,10 @@ var groupMsPool = []int{0, 1, 2, 3, 5, 10, 20, 40}
 // long-lived session (the throw-away session of Exchange.GetBlocks is mixed in), with pairwise
 // disjoint key sets (every block index goes to at most one request; a request may repeat one
 // of its own keys), started (almost) together under one shared parent context (cancel group 1)
-// which is cancelled after a generated delay. The same requests are issued again in 0-5 further
-// rounds (phases; each round starts when the requests of the round before have ended and the
-// want-list was seen clean) under a fresh shared context each, cancelled after its own delay.
-// Returns the number of rounds.
-func genBurst(t *rapid.T, c *Case, node, nb, n int) int {
+// which is cancelled after a generated delay. The same requests are issued again in 0-11 further
+// rounds (Case.Rounds) under a fresh shared context each, cancelled a little later each time
+// (Case.SweepUs).
+func genBurst(t *rapid.T, c *Case, node, nb, n int) {
 	perm := rapid.Permutation(seq(nb)).Draw(t, "burstkeys")
 	keys := make([][]int, n)
 	for r := 0; r < n; r++ {
@@ -292,11 +321,12 @@ func genBurst(t *rapid.T, c *Case, node, nb, n int) int {
 			q.Keys = append(q.Keys, rapid.SampledFrom(q.Keys).Draw(t, "dup"))
 		}
 		q.Start = rapid.SampledFrom([]int{0, 0, 0, 0, 1, 3}).Draw(t, "startburst")
+		// own cancel point: timed only. A cancel after k received blocks coincides with the arrival
+		// of further blocks, where the open finding want-relisted-after-delivery lives; repeated over
+		// the rounds of a burst it would mostly re-find that.
 		if rapid.IntRange(0, 5).Draw(t, "docancelburst") == 0 {
-			q.Cancel = rapid.IntRange(0, len(q.Keys)).Draw(t, "cancelafterburst")
-			if q.Cancel == 0 {
-				q.CancelMs = rapid.SampledFrom([]int{0, 1, 2, 5, 20}).Draw(t, "cancelmsburst")
-			}
+			q.Cancel = 0
+			q.CancelMs = rapid.SampledFrom([]int{0, 1, 2, 5, 20}).Draw(t, "cancelmsburst")
 		}
 		if rapid.IntRange(0, 7).Draw(t, "alone") == 0 {
 			q.Group = 0 // this one has its own context
@@ -304,19 +334,58 @@ func genBurst(t *rapid.T, c *Case, node, nb, n int) int {
 		c.Reqs = append(c.Reqs, q)
 	}
 	c.GroupMs = []int{rapid.SampledFrom(groupMsPool).Draw(t, "groupmsburst")}
-	rounds := rapid.SampledFrom([]int{6, 4, 3, 2, 1}).Draw(t, "rounds")
-	for r := 1; r < rounds; r++ {
-		c.GroupMs = append(c.GroupMs, rapid.SampledFrom(groupMsPool).Draw(t, "groupmsround"))
-		for _, q := range c.Reqs[:n] {
-			q.Phase = r
-			q.Keys = append([]int(nil), q.Keys...)
-			if q.Group > 0 {
-				q.Group = r + 1
-			}
-			c.Reqs = append(c.Reqs, q)
+	c.Rounds = rapid.SampledFrom([]int{12, 8, 6, 4, 2, 1}).Draw(t, "rounds")
+	c.SweepUs = rapid.SampledFrom([]int{0, 100, 250}).Draw(t, "sweepus")
+}
+
+// genSweep: one caller asks 1-2 times for blocks that (nearly) all other nodes hold, all bigger
+// than 1 KiB (the peers answer HAVE, the session then sends want-block), mostly through the
+// throw-away session of Exchange.GetBlocks / GetBlock, and cancels each request about one round
+// trip after it started: at 2*latency + 0..0.75 ms in the first round and SweepUs later in each of
+// the 16-32 rounds that follow (2.4 ms at most), so that cancellations fall before, into and after
+// the arrival and processing of the peers' HAVEs. The latency is 1-3 ms, so the blocks themselves
+// (one more round trip away) do not arrive before the cancellation: a cancellation that meets an
+// arriving block is where the open finding want-relisted-after-delivery lives, and 16-32 rounds
+// of that would mostly re-find it.
+func genSweep(t *rapid.T, c *Case) {
+	c.Nodes = rapid.SampledFrom([]int{6, 5, 4, 3}).Draw(t, "nodessweep")
+	c.DelayMs = rapid.SampledFrom([]int{1, 2, 3}).Draw(t, "delaysweep")
+	node := rapid.IntRange(0, c.Nodes-1).Draw(t, "rnsweep")
+	var holders []int
+	for n := 0; n < c.Nodes; n++ {
+		if n != node {
+			holders = append(holders, n)
 		}
 	}
-	return rounds
+	hi := kit.Scale(10, 16)
+	nb := hi - rapid.IntRange(0, hi-4).Draw(t, "nblockssweep")
+	for i := 0; i < nb; i++ {
+		c.Sizes = append(c.Sizes, rapid.SampledFrom([]int{2000, 5000, 1025, 2000}).Draw(t, "sizesweep"))
+		pl := append([]int(nil), holders...)
+		if rapid.IntRange(0, 2).Draw(t, "somesweep") == 0 {
+			k := rapid.IntRange(1, len(holders)).Draw(t, "nholdsweep")
+			pl = append([]int(nil), rapid.Permutation(holders).Draw(t, "holderssweep")[:k]...)
+			sort.Ints(pl)
+		}
+		c.Place = append(c.Place, pl)
+		c.LateMs = append(c.LateMs, 0)
+	}
+	nreq := rapid.SampledFrom([]int{1, 1, 2}).Draw(t, "nreqsweep")
+	for r := 0; r < nreq; r++ {
+		q := Req{Node: node, Cancel: 0}
+		q.Kind = rapid.SampledFrom([]string{"getblocks", "getblocks", "getblock", "session"}).Draw(t, "kindsweep")
+		if q.Kind == "getblock" {
+			q.Keys = []int{rapid.IntRange(0, nb-1).Draw(t, "keysweep")}
+		} else {
+			q.Keys = rapid.Permutation(seq(nb)).Draw(t, "keyssweep")
+			q.Keys = q.Keys[:len(q.Keys)-rapid.IntRange(0, len(q.Keys)/2).Draw(t, "dropsweep")]
+		}
+		q.CancelMs = 2 * c.DelayMs
+		q.CancelUs = rapid.SampledFrom([]int{0, 250, 500, 750}).Draw(t, "cancelussweep")
+		c.Reqs = append(c.Reqs, q)
+	}
+	rs := rapid.SampledFrom([][2]int{{32, 75}, {24, 100}, {32, 50}, {16, 150}}).Draw(t, "roundssweep")
+	c.Rounds, c.SweepUs = rs[0], rs[1]
 }
 
 func seq(n int) []int {
@@ -348,20 +417,26 @@ type outcome struct {
 	lingerAllInWantlist bool
 	// the suspicion is a lingering want, some lingering CID was outstanding when its request
 	// was cancelled, and: every such CID is reported as a want-have only (not by GetWantBlocks),
-	// and all lingering CIDs were still listed after every session of the case had been closed
-	// and the list had been polled again (no session owns them: a session that is still
-	// interested in a CID retracts it when it shuts down)
+	// and the probe (a throw-away request for the lingering CIDs, cancelled again) cleared them
+	// from the list for good, also across another two periods of the session timers: a one-off
+	// stale entry that no session owns or re-lists
 	lingerOutstanding   bool
 	lingerDelivered     bool // some lingering CID had been delivered to every asker
 	lingerOutstHaveOnly bool
 	lingerOwnerless     bool
 	missingReq          int // index of the request with a missing delivery, else -1
-	nt                  bool
-	classes             []string
+	// requests that ended without all their blocks because the shared context of their cancel
+	// group was cancelled
+	groupCancelled map[int]bool
+	nt             bool
+	classes        []string
 }
 
 func valid(c Case) bool {
 	if c.SearchMs < 0 || c.RebroadcastMs < 0 || c.HoldMs < 0 || c.HoldMs > 2000 {
+		return false
+	}
+	if c.Rounds < 0 || c.Rounds > 64 || c.SweepUs < 0 || c.SweepUs > 1000 {
 		return false
 	}
 	for _, ms := range c.GroupMs {
@@ -396,6 +471,7 @@ func valid(c Case) bool {
 func attempt(c Case, allowance time.Duration) outcome {
 	var o outcome
 	o.missingReq = -1
+	o.groupCancelled = map[int]bool{}
 	var mu sync.Mutex
 	setViolation := func(f string, a ...any) {
 		mu.Lock()
@@ -507,7 +583,7 @@ func attempt(c Case, allowance time.Duration) outcome {
 		}
 	}
 	asked := map[int]map[cid.Cid]int{} // per node: CIDs asked for in the phases run so far
-	runReq := func(ri int, q Req, parent context.Context) {
+	runReq := func(ri int, q Req, parent context.Context, shift time.Duration) {
 		// grouped: the request context is a child of the shared parent context of its cancel group
 		grouped := q.Group > 0
 		if q.Start > 0 {
@@ -527,6 +603,13 @@ func attempt(c Case, allowance time.Duration) outcome {
 		ctx, cancel := context.WithCancel(parent)
 		defer cancel()
 		defer noteEnd(q.Node, want, got)
+		defer func() {
+			if grouped && parent.Err() != nil && len(got) < len(want) {
+				mu.Lock()
+				o.groupCancelled[ri] = true
+				mu.Unlock()
+			}
+		}()
 		check := func(b blocks.Block) bool {
 			i, ok := index[b.Cid()]
 			if !ok || !want[i] {
@@ -549,7 +632,7 @@ func attempt(c Case, allowance time.Duration) outcome {
 			if q.Cancel >= 0 {
 				go func() {
 					select {
-					case <-time.After(time.Duration(q.CancelMs)*time.Millisecond + time.Duration(q.CancelUs)*time.Microsecond):
+					case <-time.After(time.Duration(q.CancelMs)*time.Millisecond + time.Duration(q.CancelUs)*time.Microsecond + shift):
 						cancel()
 					case <-ctx.Done():
 					}
@@ -617,7 +700,7 @@ func attempt(c Case, allowance time.Duration) outcome {
 		}
 		var cancelTimer <-chan time.Time
 		if q.Cancel == 0 {
-			cancelTimer = time.After(time.Duration(q.CancelMs)*time.Millisecond + time.Duration(q.CancelUs)*time.Microsecond)
+			cancelTimer = time.After(time.Duration(q.CancelMs)*time.Millisecond + time.Duration(q.CancelUs)*time.Microsecond + shift)
 		}
 		deadline := time.After(allowance)
 		n := 0
@@ -672,7 +755,11 @@ func attempt(c Case, allowance time.Duration) outcome {
 			}
 		}
 	}
-	for phase := 0; phase <= lastPhase; phase++ {
+	rounds := max(c.Rounds, 1)
+	for rp := 0; rp < rounds*(lastPhase+1); rp++ {
+		round, phase := rp/(lastPhase+1), rp%(lastPhase+1)
+		final := rp == rounds*(lastPhase+1)-1 // nothing starts after this phase
+		shift := time.Duration(round*c.SweepUs) * time.Microsecond
 		var wg sync.WaitGroup
 		mu.Lock()
 		for _, q := range c.Reqs {
@@ -699,7 +786,7 @@ func attempt(c Case, allowance time.Duration) outcome {
 			}
 			gctx, gcancel := context.WithCancel(root)
 			groupCtx[q.Group] = gctx
-			tm := time.AfterFunc(time.Duration(c.GroupMs[q.Group-1])*time.Millisecond, gcancel)
+			tm := time.AfterFunc(time.Duration(c.GroupMs[q.Group-1])*time.Millisecond+shift, gcancel)
 			groupStop = append(groupStop, func() { tm.Stop(); gcancel() })
 		}
 		for ri, q := range c.Reqs {
@@ -709,7 +796,7 @@ func attempt(c Case, allowance time.Duration) outcome {
 			wg.Add(1)
 			go func(ri int, q Req) {
 				defer wg.Done()
-				runReq(ri, q, groupCtx[q.Group])
+				runReq(ri, q, groupCtx[q.Group], shift)
 			}(ri, q)
 		}
 		wg.Wait()
@@ -783,6 +870,9 @@ func attempt(c Case, allowance time.Duration) outcome {
 		until := time.Now().Add(cleanup)
 		clean := 0
 		hold := time.Duration(c.HoldMs) * time.Millisecond
+		if round < rounds-1 {
+			hold = 0
+		}
 		if allowance != firstAllowance {
 			hold *= 5 // confirmation run: timers may fire late on a busy machine
 		}
@@ -803,7 +893,7 @@ func attempt(c Case, allowance time.Duration) outcome {
 				// before a further phase starts the list has to be seen clean three times in a row
 				// (work left over from the ended requests should not run into the next phase)
 				clean++
-				if phase == lastPhase || clean >= 3 {
+				if final || clean >= 3 {
 					break
 				}
 				time.Sleep(2 * time.Millisecond)
@@ -832,45 +922,94 @@ func attempt(c Case, allowance time.Duration) outcome {
 						haveOnly = false
 					}
 				}
-				// Who keeps these CIDs listed? Close every session of the case and poll again: a
-				// session that is still interested in a CID retracts it when it shuts down; a want
-				// that stays listed has no owner (it was sent after its cancel).
-				ownerless := true
-				if len(sessCancel) > 0 {
-					for _, cancel := range sessCancel {
-						cancel()
-					}
-					after := min(cleanup, afterCloseConfirm)
+				// Is this a stale entry nobody owns, or does a live session keep (re-)listing these CIDs?
+				// Probe with the public API (only where the answer matters for the open finding
+				// keyRebroadcast): ask for the lingering CIDs once more through a throw-away request
+				// (Exchange.GetBlocks) and cancel it. When that request's session shuts down, the
+				// exchange retracts every CID no session is interested in any more. A CID that is
+				// still listed then belongs to a session that is still interested in it (e.g. one
+				// that lost the cancel); a CID that leaves the list but is back after the sessions'
+				// timers have fired again is still a live want of a session that keeps re-broadcasting
+				// it. Only an entry that the probe clears for good was a one-off stale entry.
+				ownerless := false
+				hasSession := false
+				for _, q := range c.Reqs {
+					hasSession = hasSession || q.Kind == "session"
+				}
+				if len(outst) > 0 && haveOnly && len(notInWhole) == 0 && hasSession {
+					after := min(cleanup, afterProbeConfirm)
 					if allowance == firstAllowance {
-						after = min(cleanup, afterCloseFirst)
+						after = min(cleanup, afterProbeFirst)
 					}
-					end := time.Now().Add(after)
-					for {
-						gone := false
-						still := map[int]bool{}
+					listed := func() bool {
 						for _, k := range insts[node].Exchange.GetWantlist() {
 							if i, ok := asked[node][k]; ok {
-								still[i] = true
+								for _, j := range l {
+									if i == j {
+										return true
+									}
+								}
 							}
 						}
-						for _, k := range l {
-							if !still[k] {
-								gone = true
+						return false
+					}
+					var pk []cid.Cid
+					for _, k := range l {
+						pk = append(pk, blks[k].Cid())
+					}
+					pctx, pcancel := context.WithCancel(root)
+					pch, perr := insts[node].Exchange.GetBlocks(pctx, pk)
+					if perr != nil {
+						pcancel()
+						where += fmt.Sprintf("; probe request failed: %v", perr)
+					} else {
+						pdone := make(chan struct{})
+						go func() {
+							defer close(pdone)
+							for range pch {
 							}
+						}()
+						select {
+						case <-pdone: // all of them arrived meanwhile
+						case <-time.After(5 * time.Millisecond):
 						}
-						if gone {
-							ownerless = false
-							where += "; after the sessions of the case were closed (some of) these CIDs left the list"
-							break
+						pcancel()
+						<-pdone
+						end := time.Now().Add(after)
+						cleared := false
+						for {
+							if !listed() {
+								cleared = true
+								break
+							}
+							if time.Now().After(end) {
+								break
+							}
+							time.Sleep(2 * time.Millisecond)
 						}
-						if time.Now().After(end) {
-							where += fmt.Sprintf("; still listed %v after every session of the case was closed", after)
-							break
+						switch {
+						case !cleared:
+							where += fmt.Sprintf("; still listed %v after a throw-away request for these CIDs was cancelled: a session is still interested in them", after)
+						case c.SearchMs > 0 || c.RebroadcastMs > 0:
+							// let the session timers fire again (at least two periods)
+							rehold := time.Duration(2*max(c.SearchMs, c.RebroadcastMs)+10) * time.Millisecond
+							if allowance != firstAllowance {
+								rehold *= 5
+							}
+							time.Sleep(rehold)
+							if listed() {
+								where += fmt.Sprintf("; a throw-away request for these CIDs, cancelled again, cleared them, but %v later (session timers: ProviderSearchDelay %d ms, RebroadcastDelay %d ms) they were listed again: a session keeps re-broadcasting them", rehold, c.SearchMs, c.RebroadcastMs)
+							} else {
+								ownerless = true
+								where += fmt.Sprintf("; a throw-away request for these CIDs, cancelled again, cleared them and they stayed off the list for %v (session timers: ProviderSearchDelay %d ms, RebroadcastDelay %d ms): a stale entry", rehold, c.SearchMs, c.RebroadcastMs)
+							}
+						default:
+							ownerless = true
+							where += "; a throw-away request for these CIDs, cancelled again, cleared them: a stale entry"
 						}
-						time.Sleep(2 * time.Millisecond)
 					}
 				}
-				setSuspect("want-list of node %d still holds blocks %v %v after all its requests (phases 0..%d) completed or were cancelled (%s; delivered to every asker: %v; outstanding at a cancellation: %v)", node, l, cleanup, phase, where, deliv, outst)
+				setSuspect("want-list of node %d still holds blocks %v %v after all its requests (round %d, phases 0..%d) completed or were cancelled (%s; delivered to every asker: %v; outstanding at a cancellation: %v)", node, l, cleanup, round, phase, where, deliv, outst)
 				mu.Lock()
 				o.lingerOnlyDelivered = len(outst) == 0
 				o.lingerAllInWantlist = len(notInWhole) == 0
@@ -966,6 +1105,20 @@ func attempt(c Case, allowance time.Duration) outcome {
 	if lastPhase > 0 {
 		o.classes = append(o.classes, "two-phases")
 	}
+	if c.Rounds > 1 {
+		o.classes = append(o.classes, "repeated-rounds")
+		if c.Rounds >= 16 && c.SweepUs > 0 {
+			for _, q := range c.Reqs {
+				big := false
+				for _, k := range q.Keys {
+					big = big || (c.Sizes[k] > 1024 && len(c.Place[k]) > 0)
+				}
+				if q.Cancel == 0 && big && q.CancelMs >= 2*c.DelayMs && q.CancelMs <= 2*c.DelayMs+3 {
+					o.classes = append(o.classes, "cancel-point-swept-over-the-round-trip(>1KiB-blocks)", "cancel-point-swept-over-the-round-trip(>1KiB-blocks):"+q.Kind)
+				}
+			}
+		}
+	}
 	if c.SearchMs > 0 || c.RebroadcastMs > 0 {
 		o.classes = append(o.classes, "short-session-timers")
 	}
@@ -1059,9 +1212,9 @@ var (
 	firstAllowance   = 12 * time.Second
 	cleanupFirst     = 4 * time.Second
 	confirmAllowance = 60 * time.Second
-	// how long a lingering want is polled after the sessions of the case were closed
-	afterCloseFirst   = 2 * time.Second
-	afterCloseConfirm = 10 * time.Second
+	// how long a lingering want is polled after the probe request for it was cancelled
+	afterProbeFirst   = 2 * time.Second
+	afterProbeConfirm = 10 * time.Second
 	confirmAttempts   = 3
 )
 
@@ -1092,7 +1245,7 @@ func run(c Case) kit.Result {
 	}
 	// open known findings with a signature that is visible in the first run: no confirmation
 	// run (it would cost up to the long allowance for every such case)
-	if o.missingReq >= 0 && sameSessionOverlapCancelled(c, o.missingReq) && kit.OpenFinding("C37", keySameSession) {
+	if o.missingReq >= 0 && sameSessionOverlapCancelled(c, o.missingReq, o.groupCancelled) && kit.OpenFinding("C37", keySameSession) {
 		return kit.Result{Err: errors.New(o.suspect), Known: keySameSession}
 	}
 	if o.lingerOnlyDelivered && o.lingerAllInWantlist && kit.OpenFinding("C37", keyLateWant) {
@@ -1108,10 +1261,16 @@ func run(c Case) kit.Result {
 		os.WriteFile(fmt.Sprintf("%s/c37-%d.json", d, time.Now().UnixNano()), b, 0o644)
 	}
 	// The failures in question depend on the schedule, so a confirmation run may simply not meet
-	// the interleaving again: up to confirmAttempts confirmation runs, each alone and with the long
-	// allowance; the suspicion is reported only if one of them confirms it.
+	// the interleaving again. A case with rounds (burst, sweep) exists to reach interleavings a
+	// few microseconds wide: it gets up to confirmAttempts confirmation runs, each alone and with
+	// the long allowance, and the suspicion is reported only if one of them confirms it. Any other
+	// case gets one confirmation run.
 	var o2 outcome
-	for i := 0; i < confirmAttempts; i++ {
+	attempts := 1
+	if c.Rounds > 1 {
+		attempts = confirmAttempts
+	}
+	for i := 0; i < attempts; i++ {
 		o2 = attempt(c, confirmAllowance)
 		if o2.violation != "" || o2.suspect != "" {
 			break
@@ -1123,7 +1282,7 @@ func run(c Case) kit.Result {
 	if o2.suspect != "" {
 		res := kit.Fail("%s (confirmed: first run: %s)", o2.suspect, o.suspect)
 		switch {
-		case o2.missingReq >= 0 && sameSessionOverlapCancelled(c, o2.missingReq):
+		case o2.missingReq >= 0 && sameSessionOverlapCancelled(c, o2.missingReq, o2.groupCancelled):
 			res.Known = keySameSession
 		case o2.lingerOnlyDelivered && o2.lingerAllInWantlist:
 			res.Known = keyLateWant
@@ -1148,8 +1307,9 @@ const (
 	// a long-lived session broadcasts want-haves for CIDs its want sender reported as "all
 	// session peers answered DONT_HAVE" although the request that wanted them was cancelled in
 	// between (Session.run, opBroadcast after opCancel): the CIDs are back on the want-list as
-	// broadcast want-haves and no session is interested in them, so nothing retracts them, not even
-	// the shutdown of the session. Signature: see rebroadcastSignature.
+	// broadcast want-haves and no session is interested in them, so nothing retracts them (not even
+	// the shutdown of the session) until some later request for the same CID ends. Signature: see
+	// rebroadcastSignature.
 	keyRebroadcast = "cancelled-want-rebroadcast"
 )
 
@@ -1157,10 +1317,12 @@ const (
 // Some lingering CID was outstanding when its request was cancelled; every one of these is listed
 // as a want-have only (a broadcast) and by GetWantlist() too; the case has a long-lived session
 // on which CIDs nobody holds (or stored late) were requested - only then a session peer answers
-// DONT_HAVE; and the CIDs stayed listed after every session of the case had been closed (a want a
-// session is still interested in - e.g. one whose cancel the session lost - goes away then, and
-// is not explained by this finding). Lingering CIDs that had been delivered to every asker are
-// tolerated next to them only while the finding keyLateWant is open.
+// DONT_HAVE; and the probe cleared the CIDs for good: after a throw-away request for them was
+// cancelled they left the list and did not come back while the session timers (if short) fired
+// twice more. A want a session is still interested in - e.g. one whose cancel the session lost -
+// survives the probe, and one that a session still counts as live is re-broadcast by its timers;
+// neither is explained by this finding. Lingering CIDs that had been delivered to every asker
+// are tolerated next to them only while the finding keyLateWant is open.
 func (o outcome) rebroadcastSignature(c Case) bool {
 	if !o.lingerOutstanding || !o.lingerOutstHaveOnly || !o.lingerAllInWantlist || !o.lingerOwnerless {
 		return false
@@ -1176,8 +1338,9 @@ func (o outcome) rebroadcastSignature(c Case) bool {
 
 // sameSessionOverlapCancelled: request ri shares its session, its phase (the calls are
 // concurrent) and at least one key with a request that ends by cancellation (own cancel point,
-// or keys nobody holds).
-func sameSessionOverlapCancelled(c Case, ri int) bool {
+// keys nobody holds, or - as observed in the run - cut short by the cancellation of the shared
+// context of its cancel group).
+func sameSessionOverlapCancelled(c Case, ri int, groupCancelled map[int]bool) bool {
 	q := c.Reqs[ri]
 	if q.Kind != "session" {
 		return false
@@ -1190,7 +1353,7 @@ func sameSessionOverlapCancelled(c Case, ri int) bool {
 		if j == ri || r.Kind != "session" || r.Node != q.Node || r.Sess != q.Sess || r.Phase != q.Phase {
 			continue
 		}
-		cancels := r.Cancel >= 0
+		cancels := r.Cancel >= 0 || groupCancelled[j]
 		common := false
 		for _, k := range r.Keys {
 			if len(c.Place[k]) == 0 {
@@ -1222,8 +1385,8 @@ func dedup(in []string) []string {
 
 var spec = kit.Spec[Case]{
 	Prop: "C37", Name: "main",
-	Rule:  "2-6 in-memory bitswap nodes on a VirtualNetwork (latency 0-3 ms), random block placement (some blocks held by nobody, some stored late), 1-3 concurrent requests (GetBlock, GetBlocks with duplicate keys, session GetBlocks, shared sessions, overlapping key sets, start delays), cancellation after a generated number of received blocks / delay; block sizes on both sides of the 1 KiB HAVE/block boundary; in half of the cases a second phase of 1-2 requests that starts after all earlier requests ended, mostly for CIDs the node asked for before; in half of the cases short session timers on every node (ProviderSearchDelay 5-30 ms, RebroadcastDelay 10-25 ms) and, if the case uses a NewSession session, the sessions held open for > 2 timer periods after the want-list was first seen clean, then polled again; per-channel oracle and want-list cleanup polled after every phase through GetWantlist, GetWantBlocks and GetWantHaves; non-trivial = overlapping concurrent requests on one node, a cancellation with wants still outstanding, or a CID requested again after its earlier request ended",
-	Quick: 100, Thorough: 400,
+	Rule:  "2-6 in-memory bitswap nodes on a VirtualNetwork (latency 0-3 ms), random block placement (some blocks held by nobody, some stored late), 1-3 concurrent requests (GetBlock, GetBlocks with duplicate keys, session GetBlocks, shared sessions, overlapping key sets, start delays), cancellation after a generated number of received blocks / delay; block sizes on both sides of the 1 KiB HAVE/block boundary; in half of the cases a second phase of 1-2 requests that starts after all earlier requests ended, mostly for CIDs the node asked for before; in half of the cases short session timers on every node (ProviderSearchDelay 5-30 ms, RebroadcastDelay 10-25 ms) and, if the case uses a NewSession session, the sessions held open for > 2 timer periods after the want-list was first seen clean, then polled again; a quarter of all cases are bursts (2-8 requests, thorough 2-12, with disjoint key sets on one long-lived session under one shared context, half of the blocks held by nobody, cancelled together after 0-40 ms, repeated for 1-12 rounds); a sixth of the remaining cases are sweeps (latency 1-3 ms; 1-2 requests, mostly through the throw-away session of GetBlocks/GetBlock, for 4-10 blocks > 1 KiB that most nodes hold, cancelled 2*latency + 0..0.75 ms after the start and again in 16-32 rounds, 50-150 us later each round, 2.4 ms at most); per-channel oracle and want-list cleanup polled after every phase through GetWantlist, GetWantBlocks and GetWantHaves; non-trivial = overlapping concurrent requests on one node, a cancellation with wants still outstanding, or a CID requested again after its earlier request ended",
+	Quick: 90, Thorough: 400,
 	Gen: gen, Run: run, Journal: true,
 }
 
